@@ -37,6 +37,33 @@ theorem maskXOR_involutive (k : Key) (b : List B8) : maskXOR k (maskXOR k b) = b
     rw [maskXOR_getElem k _ i (by simpa [maskXOR_length] using h2), maskXOR_getElem k b i h2]
     rw [BitVec.xor_assoc, BitVec.xor_self, BitVec.xor_zero]
 
+/-- **C18, prefix stability.** Masking a prefix of a buffer is the prefix of masking the buffer: byte
+`i` of the result depends on byte `i` and the key only (no carry between the 8-byte words, the
+4-byte step and the byte tail of the implementation). -/
+theorem maskXOR_take (k : Key) (b : List B8) (n : Nat) :
+    (maskXOR k b).take n = maskXOR k (b.take n) := by
+  apply List.ext_getElem
+  · simp [maskXOR_length]
+  · intro i h1 h2
+    have hi : i < n ∧ i < b.length := by
+      simp [maskXOR_length] at h2; omega
+    rw [List.getElem_take, maskXOR_getElem k b i hi.2, maskXOR_getElem k _ i (by simp; omega)]
+    simp
+
+/-- masking under two keys in turn is masking under their XOR (so a relay that re-masks, as a client
+writing a broadcast frame does, still leaves a payload that unmasks with one key) -/
+theorem maskXOR_maskXOR (k k' : Key) (b : List B8) :
+    maskXOR k (maskXOR k' b) = maskXOR ⟨k.k0 ^^^ k'.k0, k.k1 ^^^ k'.k1, k.k2 ^^^ k'.k2, k.k3 ^^^ k'.k3⟩ b := by
+  apply List.ext_getElem
+  · simp [maskXOR_length]
+  · intro i h1 h2
+    have hi : i < b.length := by simpa [maskXOR_length] using h2
+    rw [maskXOR_getElem k _ i (by simpa [maskXOR_length] using hi), maskXOR_getElem k' b i hi, maskXOR_getElem _ b i hi]
+    have := Nat.mod_lt i (show 4 > 0 by omega)
+    unfold Key.get
+    rcases (show i % 4 = 0 ∨ i % 4 = 1 ∨ i % 4 = 2 ∨ i % 4 = 3 by omega) with h | h | h | h <;> simp [h] <;>
+      ac_rfl
+
 /-- `key[i mod 4]` really is indexing the 4-byte key at `i mod 4`. -/
 theorem Key.get_eq (k : Key) (i : Nat) :
     (i % 4 = 0 → k.get i = k.k0) ∧ (i % 4 = 1 → k.get i = k.k1) ∧
